@@ -51,6 +51,7 @@ def case_strategy(modes=(True, False)):
     def mk():
         return st.fixed_dictionaries({
             'with_altitude': st.sampled_from(list(modes)),
+            'flag_form': st.sampled_from(['bool', 'bool', 'numpy_bool']),      # the mode flag as a Python bool or as numpy.bool_ (e.g. an element of a boolean array)
             'cap': st.sampled_from([1, 2, 3, 4, 8]),
             'pva': gen.pva_strategy(),
             'sub': st.integers(0, 2 ** 31 - 1),
@@ -74,7 +75,7 @@ class Machine:
         self.sd = strapdown
         self.case = case
         self.ctx = ctx
-        self.with_altitude = case['with_altitude']
+        self.with_altitude = np.bool_(case['with_altitude']) if case.get('flag_form', 'bool') == 'numpy_bool' else case['with_altitude']
         self.table = gen.increments_table(case['sub'], N_ROWS, t0=0.0, vertical=case['vertical'])
         self.pos = 0
         self.flags = set()
@@ -206,7 +207,7 @@ class Machine:
             self.after_op(op)
         for f in self.flags:
             ctx.label(f)
-        ctx.label(f"cap={self.case['cap']}", 'mode=3D' if self.with_altitude else 'mode=2D')
+        ctx.label(f"cap={self.case['cap']}", 'mode=3D' if self.with_altitude else 'mode=2D', f"flag_form={self.case.get('flag_form', 'bool')}")
 
     def scribble(self, ret, op):
         """The caller overwrites an object the integrator returned; nothing the integrator holds may change."""
